@@ -48,7 +48,8 @@ class ImplTimeout(BaseException):
     bare `except:` clauses of the code under test)"""
 
 
-CASE_TIMEOUT = 10
+CASE_TIMEOUT = 5
+MAX_HANGS = 3
 
 
 def run_limited(fn, seconds=None):
@@ -691,9 +692,17 @@ def corpus_cases(pid):
 def correspond(cases, stats, orig=False):
     """Drive every case, emit the Coq comparison terms.  Returns (results, coq terms, index map)."""
     results, terms, idx = [], [], []
+    hangs = 0
     for i, case in enumerate(cases):
+        if hangs >= MAX_HANGS:
+            # the implementation keeps not returning: stop driving it (the hangs are reported as failures)
+            stats['skipped_after_hangs'] = stats.get('skipped_after_hangs', 0) + 1
+            results.append(None)
+            continue
         try:
             res = drive(case)
+            if res.get('hang'):
+                hangs += 1
         except Unsupported as e:
             stats['unsupported'] = stats.get('unsupported', 0) + 1
             results.append(None)
@@ -707,7 +716,7 @@ def correspond(cases, stats, orig=False):
             continue
         use = res
         fc = floatified(case)
-        if block_text(fc) != block_text(case):
+        if block_text(fc) != block_text(case) and not res.get('hang'):
             try:
                 fres = drive(fc)
                 if fres.get('unsupported'):
